@@ -20,6 +20,7 @@ type op struct {
 	Peers  []int    `json:"peers,omitempty"`
 	Pos    []uint32 `json:"pos,omitempty"`
 	Amount uint32   `json:"amount,omitempty"`
+	NoTok  bool     `json:"notok,omitempty"` // registerCandidate: caller ONT ID without the role
 	Height uint32   `json:"height"`
 	Time   uint32   `json:"time"`
 }
@@ -35,8 +36,12 @@ func (o *op) encode() (method string, args []byte, err error) {
 	}
 	switch o.Kind {
 	case "register":
+		caller := callerOK
+		if o.NoTok {
+			caller = callerBad
+		}
 		p := &gov.RegisterCandidateParam{PeerPubkey: keyOf(o.Peer), Address: addrOf(o.Addr), InitPos: o.Amount,
-			Caller: []byte("did:ont:AdjfcJgwru2FD8kotCPvLDXYzRjqFjc9Tb"), KeyNo: 1}
+			Caller: []byte(caller), KeyNo: 1}
 		p.Serialization(sink)
 		method = gov.REGISTER_CANDIDATE
 	case "unregister":
@@ -134,7 +139,7 @@ func coqPairs(ps []int, vs []uint32) string {
 func (o *op) coq() string {
 	switch o.Kind {
 	case "register":
-		return fmt.Sprintf("(ORegister %d %d %d %d %s)", o.Signer, o.Peer, o.Addr, o.Amount, hx.CoqBool(o.Peer >= 1 && o.Peer <= nPeer))
+		return fmt.Sprintf("(ORegister %d %d %d %d %s %s)", o.Signer, o.Peer, o.Addr, o.Amount, hx.CoqBool(o.Peer >= 1 && o.Peer <= nPeer), hx.CoqBool(!o.NoTok))
 	case "unregister":
 		return fmt.Sprintf("(OUnRegister %d %d %d)", o.Signer, o.Peer, o.Addr)
 	case "approve":
@@ -200,4 +205,82 @@ func (o *obs) coq() string {
 	fmt.Fprintf(&b, "(mkObs %d %d %s %s %s %s %s %s %s)", o.View, o.VHeight, peers(o.Pool), hx.CoqList(infos), kvs(o.Stakes),
 		hx.CoqList(pens), kvs(o.Bal), hx.CoqList(black), kvs(o.MaxAuth))
 	return b.String()
+}
+
+// diff returns the records of `post` that differ from `pre` (records that disappeared are
+// listed with their default value) and the peers that left the pool.
+func diff(pre, post *obs) (d *obs, del []int) {
+	d = &obs{View: post.View, VHeight: post.VHeight, Black: post.Black}
+	prePool := map[int]peerObs{}
+	for _, p := range pre.Pool {
+		prePool[p.Peer] = p
+	}
+	postPool := map[int]bool{}
+	for _, p := range post.Pool {
+		postPool[p.Peer] = true
+		if q, ok := prePool[p.Peer]; !ok || q != p {
+			d.Pool = append(d.Pool, p)
+		}
+	}
+	for _, p := range pre.Pool {
+		if !postPool[p.Peer] {
+			del = append(del, p.Peer)
+		}
+	}
+	type ik struct{ p, a int }
+	preI := map[ik][6]uint64{}
+	for _, i := range pre.Infos {
+		preI[ik{i.Peer, i.Addr}] = i.B
+	}
+	postI := map[ik]bool{}
+	for _, i := range post.Infos {
+		postI[ik{i.Peer, i.Addr}] = true
+		if b, ok := preI[ik{i.Peer, i.Addr}]; !ok || b != i.B {
+			d.Infos = append(d.Infos, i)
+		}
+	}
+	for _, i := range pre.Infos {
+		if !postI[ik{i.Peer, i.Addr}] && i.B != [6]uint64{} {
+			d.Infos = append(d.Infos, infoObs{Peer: i.Peer, Addr: i.Addr})
+		}
+	}
+	kvDiff := func(a, b []kv) (out []kv) {
+		am := map[int]uint64{}
+		for _, e := range a {
+			am[e.K] = e.V
+		}
+		bm := map[int]bool{}
+		for _, e := range b {
+			bm[e.K] = true
+			if v, ok := am[e.K]; !ok || v != e.V {
+				out = append(out, e)
+			}
+		}
+		for _, e := range a {
+			if !bm[e.K] && e.V != 0 {
+				out = append(out, kv{e.K, 0})
+			}
+		}
+		return
+	}
+	d.Stakes = kvDiff(pre.Stakes, post.Stakes)
+	d.Bal = kvDiff(pre.Bal, post.Bal)
+	d.MaxAuth = kvDiff(pre.MaxAuth, post.MaxAuth)
+	preP := map[int]penObs{}
+	for _, p := range pre.Pens {
+		preP[p.Peer] = p
+	}
+	postP := map[int]bool{}
+	for _, p := range post.Pens {
+		postP[p.Peer] = true
+		if q, ok := preP[p.Peer]; !ok || q != p {
+			d.Pens = append(d.Pens, p)
+		}
+	}
+	for _, p := range pre.Pens {
+		if !postP[p.Peer] {
+			d.Pens = append(d.Pens, penObs{Peer: p.Peer})
+		}
+	}
+	return
 }
